@@ -253,6 +253,15 @@ def check(pid, tier, replay=None):
     rsumm = json.load(open(os.path.join(rdir, "summary.json")))
     traces.append(os.path.join(rdir, "traces.ndjson"))
     if pid == "C04":
+        # the hierarchical access has its own refresh paths on which buffers must be released
+        hdir = os.path.join(work, "randhier")
+        os.makedirs(hdir)
+        rc, out = vlib.run_harness(binary, "TestRandom", {"STORE_OUT": hdir, "VERIF_SEED": sd, "STORE_ACCESS": "hier",
+                                                           "STORE_RUNS": 400 if quick else 6000, "STORE_OPS": 16,
+                                                           "STORE_FREE_RUNS": 20 if quick else 300, "STORE_FREE_OPS": 40 if quick else 200})
+        if rc != 0:
+            raise Broken("store random harness (hier) failed:\n" + out[-3000:])
+        traces.append(os.path.join(hdir, "traces.ndjson"))
         # the persistent block list defers the release of popped blocks until a state file that no
         # longer lists them has been written: crash-free persistent runs driven to quiescence
         pdir = os.path.join(work, "persist")
